@@ -721,7 +721,7 @@ func addrDistinct(a, b Term) bool {
 		isAlloc := func(t Term) bool {
 			return !strings.Contains(t, " ") && (strings.Contains(t, "alloc_") || strings.HasPrefix(t, "|glob "))
 		}
-		// distinct allocation sites / globals are asserted pairwise distinct
+		// distinct allocation sites are asserted totally ordered, hence distinct
 		if isAlloc(a) && isAlloc(b) {
 			return true
 		}
